@@ -94,6 +94,10 @@ func (ge *gen) make(kind string, oracle bool) Case {
 		return ge.nonce(oracle)
 	case "recov":
 		return ge.recov(oracle)
+	case "schnorre":
+		return ge.schnorrE(oracle)
+	case "ecmneg":
+		return ge.ecmNeg(oracle)
 	default:
 		return ge.hmac(oracle)
 	}
@@ -812,6 +816,10 @@ func (ge *gen) nonce(oracle bool) Case {
 	g := ge.g
 	prv, msg := g.Bytes(32), g.Bytes(32)
 	cls := "rfc6979"
+	if g.Chance(1, 3) {
+		msg = ge.msg32() // 0, n+k, ff..ff: hash values >= n pin the unreduced-hash variant of RFC 6979
+		cls = "rfc6979-special-hash"
+	}
 	if g.Chance(1, 6) {
 		prv = g.Bytes(g.Pick(0, 16, 31, 33, 40))
 		cls = "odd-length"
